@@ -165,7 +165,8 @@ def iss_predicate(op_fields, impl):
     maxttl = int(kv["maxttl"]) if role_applies else 0
     effmax = maxttl if maxttl > 0 else int(kv["mmax"])
     rna = kv["rna"] if ep != "verbatim" else "-"
-    nab = kv["nab"] if ep != "verbatim" else "unset"
+    # (sign-verbatim/<role> keeps the role's not_after_bound next to its ttl / max_ttl: finding F108)
+    nab = kv["nab"] if role_applies else "unset"
     if kv["qna"] == "-" and rna == "-" and na > effmax:
         out.append("notAfter exceeds now + role/mount maximum TTL and no not_after was requested")
     if nab == "ttl-limited" and rna == "-" and na > effmax:
